@@ -124,7 +124,7 @@ func (ti *TypeInfo) Enter(node ast.Node) {
 			ttype, _ = typeFromAST(*schema, node.TypeCondition)
 			ti.typeStack = append(ti.typeStack, ttype)
 		} else {
-			ti.typeStack = append(ti.typeStack, ti.Type())
+			ti.typeStack = append(ti.typeStack, ti.enclosingNamedType())
 		}
 	case *ast.FragmentDefinition:
 		typeConditionAST := node.TypeCondition
@@ -132,7 +132,7 @@ func (ti *TypeInfo) Enter(node ast.Node) {
 			ttype, _ = typeFromAST(*schema, typeConditionAST)
 			ti.typeStack = append(ti.typeStack, ttype)
 		} else {
-			ti.typeStack = append(ti.typeStack, ti.Type())
+			ti.typeStack = append(ti.typeStack, ti.enclosingNamedType())
 		}
 	case *ast.VariableDefinition:
 		ttype, _ = typeFromAST(*schema, node.Type)
@@ -187,6 +187,21 @@ func (ti *TypeInfo) Enter(node ast.Node) {
 		ti.inputTypeStack = append(ti.inputTypeStack, fieldType)
 	}
 }
+
+// enclosingNamedType is the type a fragment without a type condition applies
+// to: the named type of the enclosing field, without its list / non-null
+// wrappers (a fragment inside `items: [Item]` selects on Item).
+func (ti *TypeInfo) enclosingNamedType() Output {
+	current := ti.Type()
+	if current == nil {
+		return nil
+	}
+	if named, ok := GetNamed(current).(Output); ok {
+		return named
+	}
+	return nil
+}
+
 func (ti *TypeInfo) Leave(node ast.Node) {
 	kind := node.GetKind()
 	switch kind {
